@@ -1,4 +1,5 @@
 import Mkdb.Model.Engine
+import Mkdb.Model.Wal
 import Mkdb.Driver.Sql
 import Mkdb.Driver.Tuple
 import Mkdb.Driver.Page
@@ -109,7 +110,17 @@ def counterBehind (lines : List String) : Option (Nat × Nat) :=
 /-- the database a crash before log event `k` of the last statement leaves behind -/
 def crashImage (st : St) (k : Nat) (cut : String) : DB :=
   let batch := st.db.wal.drop st.prev.wal.length
-  let complete := if cut == "write" && k % 3 == 2 then k / 3 + 1 else k / 3
+  -- `byte:<n>`: the log file cut after `n` bytes of what the statement appended - ANY byte position,
+  -- not only the boundaries of write calls; what survives is what the byte-level reader model
+  -- (`Wal.readLog`, the subject of `C03_cut_is_prefix`) reads from those bytes
+  let complete :=
+    if cut.startsWith "byte:" then
+      let n := ((cut.drop 5).toString.toNat?).getD 0
+      let bytes := Wal.encodeLog (batch.map fun r => (⟨r.op, r.lsn, r.page, r.cell, r.val⟩ : Wal.Rec))
+      match Wal.readLog (bytes.take n) with
+      | .ok recs _ _ => recs.length
+      | .err recs => recs.length
+    else if cut == "write" && k % 3 == 2 then k / 3 + 1 else k / 3
   { store := reopen st.prev.store, wal := st.prev.wal ++ batch.take complete }
 
 /-- a table of a recovered image cannot be read at all (anything but rows or "no such table") -/
